@@ -941,6 +941,26 @@ impl Serialize for Pieces {
     }
 }
 
+
+/// a Display-based Serialize whose Display itself serializes something (with the same serializer)
+/// that again goes through `collect_str`: serialization is re-entered while a text is being collected
+struct Label<T>(T, usize);
+impl<T: Serialize> std::fmt::Display for Label<T> {
+    fn fmt(&self, f: &mut std::fmt::Formatter<'_>) -> std::fmt::Result {
+        f.write_str("label of ")?;
+        match self.0.serialize(ValueSerializer) {
+            Ok(v) => write!(f, "{v}"),
+            Err(_) => Err(std::fmt::Error),
+        }
+    }
+}
+impl<T: Serialize> Serialize for Label<T> {
+    fn serialize<S: serde::Serializer>(&self, s: S) -> Result<S::Ok, S::Error> {
+        let _ = self.1;
+        s.collect_str(self)
+    }
+}
+
 fn derived(acc: &mut Acc) {
     fn one<T: Serialize>(name: &str, v: &T, must_fail: bool, acc: &mut Acc) {
         acc.count("executions", 1);
@@ -1005,6 +1025,52 @@ fn derived(acc: &mut Acc) {
                     }),
                 }
             }
+        }
+    }
+    // re-entrant collect_str: one, two and three levels, a chrono date inside, a failing text inside
+    {
+        let p = Pieces(vec!["inner".into(), " text".into()]);
+        let cases: Vec<(&str, Result<String, ()>)> = vec![];
+        let _ = cases;
+        let check_label = |name: &str, got: Result<Result<Value, String>, String>, want: Option<String>, acc: &mut Acc| {
+            acc.count("executions", 1);
+            let ok = match (&got, &want) {
+                (Ok(Ok(Value::String(s))), Some(w)) => s == w,
+                (Ok(Err(_)), None) => true,
+                _ => false,
+            };
+            acc.outcome(format!("derived:{name}"));
+            if !ok {
+                acc.violation(Violation {
+                    sig: format!("derived/{name}"),
+                    what: format!("serialize({name}) — a Display-based impl whose Display serializes a value that is itself Display-based: {:?}, expected {want:?}", got.as_ref().map(|r| r.as_ref().map(|v| RV::from_value(v).show()))),
+                    case: json!({"kind": "derived", "name": name}),
+                    size: 1,
+                });
+            }
+        };
+        let run = |v: &dyn Fn() -> Result<Value, String>| catch(v);
+        let l1 = Label(Pieces(vec!["inner".into(), " text".into()]), 1);
+        check_label("reentrant-display-1", run(&|| l1.serialize(ValueSerializer).map_err(|e| e.to_string())), Some("label of \"inner text\"".into()), acc);
+        let l2 = Label(Label(Pieces(vec!["x".into()]), 1), 2);
+        check_label("reentrant-display-2", run(&|| l2.serialize(ValueSerializer).map_err(|e| e.to_string())), Some("label of \"label of \\\"x\\\"\"".into()), acc);
+        let when = chrono::DateTime::<chrono::Utc>::from_timestamp(1_438_226_773, 0).unwrap();
+        let l3 = Label(vec![when], 1);
+        let want3 = format!("label of {}", vec![when].serialize(ValueSerializer).map(|v| v.to_string()).unwrap_or_default());
+        check_label("reentrant-display-date-list", run(&|| l3.serialize(ValueSerializer).map_err(|e| e.to_string())), Some(want3), acc);
+        let l4 = Label(FailingDisplay(2), 1);
+        check_label("reentrant-display-failing", run(&|| l4.serialize(ValueSerializer).map_err(|e| e.to_string())), None, acc);
+        let mut m = BTreeMap::new();
+        m.insert(Label(Pieces(vec!["k".into()]), 1).to_string(), Label(p, 1));
+        acc.count("executions", 1);
+        match catch(|| m.serialize(ValueSerializer)) {
+            Ok(Ok(Value::Map(g))) if g.len() == 1 && g.values().next() == Some(&Value::String("label of \"inner text\"".into())) => acc.outcome("derived:reentrant-display-in-map"),
+            other => acc.violation(Violation {
+                sig: "derived/reentrant-display-in-map".into(),
+                what: format!("a map whose value is a re-entrant Display-based impl: {:?}", other.map(|r| r.map(|v| RV::from_value(&v).show()).map_err(|e| e.to_string()))),
+                case: json!({"kind": "derived", "name": "reentrant-display-in-map"}),
+                size: 1,
+            }),
         }
     }
     one("struct-with-skipped-fields", &Skippy { name: "Frank".into(), nickname: None, referrer: None, tags: vec![] }, false, acc);
